@@ -8,6 +8,7 @@ import copy
 import hashlib
 import io
 import json
+import re
 from collections import Counter
 
 from .. import seams
@@ -17,6 +18,20 @@ from .printworld import PrintWorld, Violation, state_snapshot
 
 SP = seams._SP_mod
 GH = seams._GH_mod
+
+
+_CANON = re.compile(r"^([GMT])\s*0*(\d+)(?:\.(\d+))?\s*(.*)$")
+
+
+def canon(cmd):
+    """Canonical form of a command for sequence comparison: code letter + number (no leading zeros) [.sub],
+    one blank, parameters as written (the stream processor re-assembles the command from its parse, the live
+    path forwards the text as it is: `G1Z.3F3000` and `G1 Z.3F3000` are the same command)."""
+    m = _CANON.match(cmd)
+    if not m:
+        return cmd
+    head = m.group(1) + m.group(2) + ("." + m.group(3) if m.group(3) is not None else "")
+    return (head + " " + m.group(4).strip()).strip()
 
 
 class RecComm(object):
@@ -212,12 +227,12 @@ class OfflineWorld(object):
                     got.append(c)
         want = [process_gcode_line(x) for x in expect]
         want = [x for x in want if x]
-        got_c = [x for x in got if not x.startswith("@")]
-        want_c = [x for x in want if not x.startswith("@")]
+        got_c = [canon(x) for x in got if not x.startswith("@")]
+        want_c = [canon(x) for x in want if not x.startswith("@")]
         if got_c != want_c:
             self.fail("sequence", "line %r: stream processor emits %r, the live hooks would send %r"
                       % (line, got_c, want_c))
-        if len(want_c) != 1 or want_c[0] != cmd:
+        if len(want_c) != 1 or want_c[0] != canon(cmd):
             self.stats["probe:altered_line"] += 1
         if not want_c:
             self.stats["probe:dropped_line"] += 1
